@@ -328,6 +328,25 @@ pub fn run_check(spec: CheckSpec, tier: Tier) -> i32 {
   let found: Arc<Mutex<Vec<Found>>> = Arc::new(Mutex::new(Vec::new()));
   let stop = Arc::new(AtomicBool::new(false));
   let capped = Arc::new(AtomicBool::new(false));
+  // real-time watchdog outside the simulated runs: code under test that blocks in a primitive the
+  // facade does not wrap (while it holds the baton, or on the driver thread itself) can never be
+  // unblocked from inside the run; that is a harness error (exit 2), never a hang
+  let started: Arc<Vec<AtomicU64>> = Arc::new((0..jobs).map(|_| AtomicU64::new(0)).collect());
+  {
+    let started = started.clone();
+    let prop = spec.property;
+    std::thread::spawn(move || loop {
+      std::thread::sleep(std::time::Duration::from_secs(2));
+      let now = t0.elapsed().as_millis() as u64 + 1;
+      for s in started.iter() {
+        let v = s.load(Ordering::Relaxed);
+        if v != 0 && now.saturating_sub(v) > 300_000 {
+          println!("HARNESS-ERROR: property={} a simulated run has made no progress for 300 s of real time: the code under test blocks in a primitive the simulator does not control", prop);
+          std::process::exit(2);
+        }
+      }
+    });
+  }
 
   for fi in 0..nfam {
     let total = match tier {
@@ -336,8 +355,9 @@ pub fn run_check(spec: CheckSpec, tier: Tier) -> i32 {
     };
     let next = Arc::new(AtomicU64::new(0));
     let mut hs = Vec::new();
-    for _ in 0..jobs {
+    for job in 0..jobs {
       let spec = spec.clone();
+      let started = started.clone();
       let stats = stats.clone();
       let found = found.clone();
       let only_class = only_class.clone();
@@ -370,7 +390,9 @@ pub fn run_check(spec: CheckSpec, tier: Tier) -> i32 {
               let mut kr = Rng::stream(seed, "knobs");
               let knobs = fam.knobs(&mut kr, &w, tier);
               let cfg = cfg_from_knobs(seed, &knobs);
+              started[job].store(t0.elapsed().as_millis() as u64 + 1, Ordering::Relaxed);
               let out = fam.exec(&w, cfg);
+              started[job].store(0, Ordering::Relaxed);
               if out.invalid {
                 eprintln!("HARNESS-ERROR: family {} generated a workload it cannot execute: {}", fam.name(), w.to_string());
                 std::process::exit(2);
